@@ -7,7 +7,7 @@ Import ListNotations.
 Open Scope Z_scope.
 
 (* Format 4: for every mapping that from_mappings turns into a table (i.e. conflict-free and
-   within the format-4 limits: no F-2 / F-9 panic), the compiled segment arrays answer every BMP
+   within the format-4 size limits: no F-9 panic), the compiled segment arrays answer every BMP
    code point other than U+FFFF with exactly the input mapping. *)
 Theorem cmap4_answers : forall input t4 o12, valid_input input -> from_mappings input = Built (Some t4) o12 ->
   forall c, 0 <= c <= 65535 -> c <> 65535 -> cmap4_map t4 c = assoc c (canon input).
@@ -22,12 +22,9 @@ Theorem segments_partition : forall sorted,
   exists segs, compute_segments sorted = Some segs /\ segs_cover segs 0 (bmp_prefix sorted).
 Proof. exact segments_partition_lemma. Qed.
 
-(* idDelta: whenever the i16 conversion does not panic the stored delta reproduces gid - cp modulo 2^16 ... *)
-Theorem delta_mod_65536 : forall d d16, delta_i16 d = Some d16 -> -32768 <= d16 < 32768 /\ (d16 - d) mod 65536 = 0.
+(* idDelta: the conversion never panics (F-2 fixed) and the stored i16 reproduces gid - cp modulo 2^16 *)
+Theorem delta_mod_65536 : forall d, -32768 <= delta_i16 d < 32768 /\ (delta_i16 d - d) mod 65536 = 0.
 Proof. exact delta_mod_65536_lemma. Qed.
-(* ... and it panics exactly for gid - cp in [32768, 65535] (finding F-2) *)
-Theorem delta_panics_iff : forall d, -65536 < d < 65536 -> (delta_i16 d = None <-> 32768 <= d <= 65535).
-Proof. exact delta_panics_iff_lemma. Qed.
 
 (* Format 12: lookup = the mapping, for every code point; iteration = exactly the input pairs in
    ascending order; groups non-empty, ascending, disjoint, maximal. *)
@@ -60,19 +57,15 @@ Theorem conflict_free_never_rejected : forall input, conflict_free input ->
   forall ch g1 g2, from_mappings input <> Conflict ch g1 g2.
 Proof. exact conflict_free_accepted. Qed.
 
-(* "building succeeds" is FALSE of the unchanged code: a valid one-pair mapping panics (F-2). *)
-Theorem format4_build_refuted : exists input, valid_input input /\ conflict_free input /\ from_mappings input = Panic.
-Proof. exact format4_build_refuted_lemma. Qed.
-
 (* skrifa Charmap::map through subtable selection and the .notdef filter. *)
 Theorem charmap_map_answers : forall input o4 o12, valid_input input -> from_mappings input = Built o4 o12 ->
   forall c, 0 <= c -> c <> 65535 -> charmap_map (records_of o4 o12) c = assoc c (canon input).
 Proof. exact charmap_map_answers_lemma. Qed.
-(* skrifa Charmap::mappings when a format-12 subtable exists: exactly the sorted input pairs — provided
-   no pair is for U+10FFFF (which the iterator limits drop: finding) and glyph ids are below the glyph count.
+(* skrifa Charmap::mappings when a format-12 subtable exists: exactly the sorted input pairs (U+10FFFF
+   included since the fix of the iterator limit), provided glyph ids are below the glyph count.
    PARTIAL: the format-4-selected case (BMP-only fonts) has no theorem (model + correspondence + oracle). *)
 Theorem charmap_mappings_exact_f12_partial : forall input o4 gs ng, valid_input input -> from_mappings input = Built o4 (Some gs) ->
-  (forall c g, In (c, g) input -> c < 1114111 /\ g < ng) ->
+  (forall c g, In (c, g) input -> g < ng) ->
   charmap_mappings (records_of o4 (Some gs)) ng = canon input.
 Proof. exact charmap_mappings_exact_f12_lemma. Qed.
 
@@ -80,13 +73,11 @@ Print Assumptions cmap4_answers.
 Print Assumptions cmap4_answers_in.
 Print Assumptions segments_partition.
 Print Assumptions delta_mod_65536.
-Print Assumptions delta_panics_iff.
 Print Assumptions cmap12_answers.
 Print Assumptions cmap12_iter_exact.
 Print Assumptions subtable_choice.
 Print Assumptions cmap_answers.
 Print Assumptions conflict_sound.
 Print Assumptions conflict_free_never_rejected.
-Print Assumptions format4_build_refuted.
 Print Assumptions charmap_map_answers.
 Print Assumptions charmap_mappings_exact_f12_partial.
